@@ -1,4 +1,11 @@
-"""C02 — every instruction computes its documented result (DESIGN.md section 3, C02)."""
+"""C02 — every instruction computes its documented result (DESIGN.md section 3, C02).
+
+Two legs over the same generated cases (tools/gen_c02.py: one MIR function per opcode / operand shape):
+  interp.<case>       the REAL interpreter (eval) on the icode dumped from the real MIR_link + generate_icode
+  gen.O<l>.<case>     the machine code the REAL generator emits at -O<l> (tools/mirgen-dump), lifted to C by
+                      tools/x86lift.py (engine E3), run from the System V ABI entry state (harness/C02/gen.c)
+Both are compared with ref/mir_ref.h for all operand values."""
+import concurrent.futures as cf
 import json
 import os
 import subprocess
@@ -7,6 +14,9 @@ import sys
 from vlib import Ob, run_all, REPO, VERIF, run, set_prepare
 
 MIRDUMP_CC = ["gcc", "-O1", "-w", "-DMIR_DIRECT_DISPATCH", "-I" + REPO]
+TOOLS = os.path.join(VERIF, "tools")
+GEN_LEVELS = {"quick": [2, 0], "thorough": [0, 1, 2, 3]}
+SIG_CODE = {"i64": 1, "f": 2, "d": 3, "ld": 4}
 
 
 def build_mirdump(scratch, extra=()):
@@ -16,6 +26,93 @@ def build_mirdump(scratch, extra=()):
         if rc != 0:
             raise RuntimeError("mirdump build failed: " + out[-2000:])
     return exe
+
+
+def build_mirgen_dump(scratch):
+    """tools/e3build.sh: the native dumper of engine E3, built from /repo's working tree (generator assertions on)."""
+    exe = os.path.join(scratch, "mirgen-dump")
+    if not os.path.exists(exe):
+        rc, out, _ = run([os.path.join(TOOLS, "e3build.sh"), scratch], 600, 0)
+        if rc != 0 or not os.path.exists(exe):
+            raise RuntimeError("mirgen-dump build failed: " + out[-2000:])
+    return exe
+
+
+def dump_and_lift(exe, mir, level, out_json, out_c, extra=()):
+    """Real generator at -O<level> on `mir` -> dump -> lifted C.  Raises with the tool's message on failure
+    (a crash / failed gen_assert of the dump tool is the GENERATOR failing on this input: report it)."""
+    with open(out_json, "w") as f:
+        p = subprocess.run([exe, "-O%d" % level] + list(extra) + [mir], stdout=f, stderr=subprocess.PIPE, text=True)
+    if p.returncode != 0:
+        raise RuntimeError("mirgen-dump -O%d %s failed (rc=%s) - the real generator rejected or crashed on this input: %s"
+                           % (level, mir, p.returncode, p.stderr[-1500:]))
+    p = subprocess.run([sys.executable, os.path.join(TOOLS, "x86lift.py"), out_json, "-o", out_c], stdout=subprocess.PIPE,
+                       stderr=subprocess.PIPE, text=True)
+    if p.returncode != 0:
+        raise RuntimeError("x86lift.py failed on %s (rc=%s): %s" % (out_json, p.returncode, p.stderr[-1500:]))
+    return json.load(open(out_json))
+
+
+def write_gen_map(dump, cases, path):
+    """c02_gen_map.h: H_LIFT_<fid> = lifted function of case <fid>, H_SIG_<fid> = its dumped prototype (see gen.c)."""
+    funcs = [r for r in dump["regions"] if r["kind"] == "func"]
+    if len(funcs) != len(cases):
+        raise RuntimeError("dump has %d functions, corpus has %d cases" % (len(funcs), len(cases)))
+    lines = []
+    for i, (c, f) in enumerate(zip(cases, funcs)):
+        if f["name"] != "f_" + c["name"]:
+            raise RuntimeError("function order of the dump differs from the corpus: %s vs %s" % (f["name"], c["name"]))
+        sig = 0
+        for r in f["proto"]["res"]:
+            sig = sig * 16 + SIG_CODE[r]
+        sig = sig * 16 + 15
+        for a in f["proto"]["args"]:
+            sig = sig * 16 + SIG_CODE[a["type"]]
+        lines.append("#define H_LIFT_%d lift_%s\n#define H_SIG_%d 0x%xull" % (i, f["name"].replace(".", "_"), i, sig))
+    with open(path, "w") as f:
+        f.write("\n".join(lines) + "\n")
+
+
+GEN_UNWINDSET = {"e3_enter.0": 17, "e3_enter.1": 17, "e3_enter.2": 65, "h_havoc_caller_saved.0": 17,
+                 "memcpy.0": 10, "memcpy.1": 17, "memcmp.0": 66, "memset.0": 10, "memset.1": 17}
+
+
+def gen_heavy(c):
+    """cases whose formula has a multiplier / divider on both sides: SMT back end (measured: SAT back ends give no verdict).
+    fp arithmetic and conversions (same IEEE operator on both sides): z3 with the floating-point theory (--fpa): measured
+    DADD 4.8 s, FDIV 5 s, LDMUL 69 s, against no verdict in 170 s for MiniSat / CaDiCaL / bit-blasted z3 on doubles"""
+    n = c["name"]
+    return c["heavy"] or any(k in n for k in ("MUL", "DIV", "MOD"))
+
+
+def gen_obs(tier, scratch, cases):
+    exe = build_mirgen_dump(scratch)
+    mir = os.path.join(scratch, "c02.mir")
+    levels = GEN_LEVELS[tier]
+
+    def one(level):
+        return dump_and_lift(exe, mir, level, os.path.join(scratch, "c02_O%d.json" % level), os.path.join(scratch, "c02_O%d.c" % level))
+
+    with cf.ThreadPoolExecutor(len(levels)) as ex:
+        dumps = list(ex.map(one, levels))
+    write_gen_map(dumps[0], cases, os.path.join(scratch, "c02_gen_map.h"))
+    for d in dumps[1:]:  # same function order / prototypes at every level
+        if [r["name"] for r in d["regions"] if r["kind"] == "func"] != [r["name"] for r in dumps[0]["regions"] if r["kind"] == "func"]:
+            raise RuntimeError("function order differs between optimisation levels")
+    obs = []
+    for level in levels:
+        lifted = os.path.join(scratch, "c02_O%d.c" % level)
+        for c in cases:
+            uw = dict(GEN_UNWINDSET)
+            uw[c["entry"] + ".0"] = 13
+            heavy = gen_heavy(c)
+            fp_arith = c["name"].startswith(("fp3_", "cv_"))
+            obs.append(Ob("gen.O%d.%s" % (level, c["name"]), "C02/gen.c", defs=['E3_LIFTED="%s"' % lifted],
+                          cc=["-I" + scratch, "-I" + TOOLS, "-I" + os.path.join(VERIF, "harness/E3")], entry=c["entry"],
+                          unwindset=uw, unwind=4, checks="functional", timeout=600 if (heavy or fp_arith) else 300,
+                          solver="z3" if (heavy or fp_arith) else None, flags=["--fpa"] if fp_arith else [],
+                          sample="generated code -O%d: %s" % (level, c["sample"])))
+    return obs
 
 
 def prepare(tier, scratch):
@@ -32,18 +129,37 @@ def prepare(tier, scratch):
     for c in cases:
         obs.append(Ob("interp." + c["name"], "C02/interp.c", defs=["MIR_DIRECT_DISPATCH"], cc=["-I" + scratch], entry=c["entry"],
                       loops={"eval#0": 14}, unwind=12, checks="functional", timeout=900 if c["heavy"] else 300,
-                      solver="cadical" if c["heavy"] else None, object_bits=10,
+                      solver="z3" if c["heavy"] else None, object_bits=10,
+                      paths=(c["group"] in ("branch", "ovf") or c["name"].startswith("fpb_")),
                       sample="interpreter: " + c["sample"]))
+    obs += gen_obs(tier, scratch, cases)
     return obs
 
 
 META = {
     "bounds": {"program": "one MIR instruction (plus the ret / branch scaffolding) per obligation", "operands": "all 64-bit / all float, double, x87 bit patterns",
-               "immediates": "boundary grid (compile-time constants)", "memory": "64-byte buffer, index in [-2,2]"},
+               "immediates": "boundary grid (compile-time constants)", "memory": "64-byte buffer, index in [-2,2]",
+               "generated_code_levels": "quick: -O2 and -O0; thorough: -O0..-O3 (every case at every level)",
+               "generated_code_entry_state": "all 16 GPRs, xmm0-15 (both halves), flags and the caller's stack words symbolic; "
+                                             "arguments placed per System V from the dumped prototype; x87 stack empty"},
     "assumptions": ["undefined cases assumed away per MIR.md: division by zero, INT_MIN/-1, shift count >= width, float->int out of range",
                     "32-bit (S) results compared on the low 32 bits only",
                     "interpreter built with the repo's MIR_DIRECT_DISPATCH switch (computed-goto label table outside the claim)",
-                    "icode obtained natively from the real MIR_link + generate_icode (tools/mirdump.c); context built by hand (no MIR_init)"],
+                    "icode obtained natively from the real MIR_link + generate_icode (tools/mirdump.c); context built by hand (no MIR_init)",
+                    "gen leg: machine code obtained natively from the real MIR_load_module/MIR_link/MIR_gen (tools/mirgen-dump, generator "
+                    "assertions enabled) and translated to C by tools/x86lift.py; trusted: GNU objdump as decoder, x86lift.py + lift_rt.h "
+                    "(validated natively against the real bytes by tools/e3validate.py, not part of this check)",
+                    "gen leg: the builtins mir.ui2f, mir.ui2d, mir.ui2ld, mir.ld2i called by generated code are modelled in x86_call by "
+                    "their C semantics ((float)/(double)/(long double) of a uint64_t, (int64_t) of a long double); the call sequence "
+                    "(argument/result locations, rsp alignment, caller-saved state havocked) is checked, the builtin body is gcc's",
+                    "gen leg: MXCSR and the x87 control word at their ABI defaults (round to nearest, 64-bit precision); "
+                    "AF/DF, alignment faults and x87 stack faults not modelled",
+                    "gen leg: long double is CBMC's IEEE binary128 on all sides (lifted code, reference); results are compared between "
+                    "C long double expressions, not against x87 hardware rounding; ld load/store cases move 16-byte cells",
+                    "gen leg: the fake addresses mirgen-dump gives to builtins replace the production addresses (only the 8-byte "
+                    "constant of the call sequence differs)",
+                    "gen leg extra assertions per case: exit by ret to the caller's return address, rsp restored, rbx/rbp/r12-r15 "
+                    "preserved, x87 depth equals the number of long double results, prototype as dumped equals the runner's"],
 }
 
 
